@@ -7,6 +7,9 @@ from ..report import Run
 
 def setup(pid, tier, level, features=None, overflow=True):
     run = Run(pid, tier, level)
+    import os
+    if features is None and os.environ.get("SC_FEATURES"):
+        features = sorted(os.environ["SC_FEATURES"].split(","))
     try:
         doc = extract.load(features=features, overflow=overflow)
     except extract.ExtractError as e:
